@@ -459,6 +459,9 @@ func (ft *funcTr) checkData(cutBack map[types.Object]bool) {
 	info := t.info
 	// opaque values are locals declared by var x T
 	for i := 0; i < ft.sig.Params().Len(); i++ {
+		if ft.segOpaqueParamOK(ft.sig.Params().At(i)) {
+			continue // segstate.go: a state variable of a segment, or a parameter it does not mention
+		}
 		if p := ft.sig.Params().At(i); t.kindOf(p.Type()) == kOpaque {
 			t.fail(ft.fd, "parameter %s of the opaque type %s", p.Name(), p.Type())
 		}
